@@ -12,6 +12,7 @@
 
 mod exec;
 mod gen;
+mod l2;
 mod workload;
 
 use exec::{execute, Mode, RunResult, Scenario};
@@ -30,9 +31,10 @@ fn arg_value(args: &[String], name: &str) -> Option<String> {
   args.iter().position(|a| a == name).and_then(|i| args.get(i + 1).cloned())
 }
 
-fn replay_json(property: &str, seed: u64, run_index: Option<u64>, sc: &Scenario, signature: &str, detail: &str) -> Value {
+fn replay_json(level: &str, property: &str, seed: u64, run_index: Option<u64>, sc: &Scenario, signature: &str, detail: &str) -> Value {
   json!({
     "engine": "lsp-sim",
+    "level": level,
     "property": property,
     "seed": seed,
     "run_index": run_index,
@@ -44,12 +46,20 @@ fn replay_json(property: &str, seed: u64, run_index: Option<u64>, sc: &Scenario,
 
 /// ddmin over operations, then initial modules, then lines of documents; keeps candidates that
 /// still produce the same signature.
-fn minimise(mode: Mode, sc: Scenario, signature: &str, budget_s: u64) -> Scenario {
+fn run_level(level: &str, sc: &Scenario, mode: Mode, trace: Option<&mut Vec<Value>>) -> RunResult {
+  if level == "l2" {
+    l2::execute_l2(sc, mode, &format!("m{:x}", simcore::fnv_str(&format!("{:?}", std::thread::current().id()))), trace)
+  } else {
+    execute(sc, mode, trace)
+  }
+}
+
+fn minimise(level: &str, mode: Mode, sc: Scenario, signature: &str, budget_s: u64) -> Scenario {
   let start = std::time::Instant::now();
   let budget = std::time::Duration::from_secs(budget_s);
   let fails = |cand: &Scenario| -> bool {
     // every candidate on a fresh thread: a run's hash keys are drawn when its thread starts
-    let r = simcore::runner::run_one(RUN_STACK, || execute(cand, mode, None));
+    let r = simcore::runner::run_one(RUN_STACK, || run_level(level, cand, mode, None));
     r.violations.iter().any(|v| v.signature == signature)
   };
   let mut cur = sc;
@@ -154,11 +164,12 @@ fn main() {
     let sc = Scenario::from_json(&v["scenario"]);
     let sig = v["signature"].as_str().unwrap_or("").to_string();
     let budget: u64 = arg_value(&args, "--budget").and_then(|s| s.parse().ok()).unwrap_or(300);
-    let small = minimise(mode, sc, &sig, budget);
-    let r = simcore::runner::run_one(RUN_STACK, || execute(&small, mode, None));
+    let level = v["level"].as_str().unwrap_or("l1").to_string();
+    let small = minimise(&level, mode, sc, &sig, budget);
+    let r = simcore::runner::run_one(RUN_STACK, || run_level(&level, &small, mode, None));
     let detail = r.violations.iter().find(|x| x.signature == sig).map(|x| x.detail.clone()).unwrap_or_default();
     let out = format!("{path}.min.json");
-    std::fs::write(&out, serde_json::to_string_pretty(&replay_json(&property, seed, None, &small, &sig, &detail)).unwrap()).unwrap();
+    std::fs::write(&out, serde_json::to_string_pretty(&replay_json(&level, &property, seed, None, &small, &sig, &detail)).unwrap()).unwrap();
     println!("wrote {out}: {} ops, {} initial modules", small.ops.len(), small.initial.len());
     return;
   }
@@ -169,7 +180,8 @@ fn main() {
     let want = v["signature"].as_str().unwrap_or("").to_string();
     let mut trace = Vec::new();
     let quiet = args.iter().any(|a| a == "--print-signature");
-    let r = simcore::runner::run_one(RUN_STACK, || execute(&sc, mode, Some(&mut trace)));
+    let level = v["level"].as_str().unwrap_or("l1").to_string();
+    let r = simcore::runner::run_one(RUN_STACK, || run_level(&level, &sc, mode, Some(&mut trace)));
     if !quiet {
       for t in &trace {
         println!("{t}");
@@ -236,7 +248,7 @@ fn main() {
   exec::declare_counters(&mut ev, mode);
 
   struct Acc {
-    violations: BTreeMap<String, (u64, exec::Found, Scenario)>,
+    violations: BTreeMap<String, (u64, exec::Found, Scenario, &'static str)>,
     digests: Vec<(u64, u64)>,
     kinds: Counters,
   }
@@ -289,14 +301,72 @@ fn main() {
       }
       for v in r.violations {
         if a.violations.len() < 48 && !a.violations.contains_key(&v.signature) {
-          a.violations.insert(v.signature.clone(), (i, v, sc.clone()));
+          a.violations.insert(v.signature.clone(), (i, v, sc.clone(), "l1"));
         }
       }
     },
     &stop,
   );
+  // L2: the same kind of scenarios through cli/main.rs + tower-lsp over simulated pipes
+  let l2_default: u64 = match (mode, thorough) {
+    (Mode::C16, _) => 0,
+    (_, false) => 6_000,
+    (_, true) => 400_000,
+  };
+  let l2_runs: u64 = arg_value(&args, "--l2-runs").and_then(|s| s.parse().ok()).unwrap_or(l2_default);
+  let mut l2_executed = 0;
+  if l2_runs > 0 {
+    l2::declare_counters(&mut ev_m.lock().unwrap());
+    let cfg2 = simcore::runner::RunnerConfig {
+      runs: l2_runs,
+      threads: simcore::runner::harness_threads(),
+      stack_bytes: RUN_STACK,
+      deadline: if thorough { Some(std::time::Duration::from_secs(arg_value(&args, "--l2-seconds").and_then(|s| s.parse().ok()).unwrap_or(600))) } else { None },
+    };
+    l2_executed = simcore::runner::run_many(
+      &cfg2,
+      &|i| {
+        let rs = rng::run_seed(seed, (1u64 << 40) + i);
+        let sc = workload::generate(rs, mode, None);
+        let r = l2::execute_l2(&sc, mode, &format!("{i}"), None);
+        (sc, r)
+      },
+      &mut |i, (sc, r): (Scenario, RunResult)| {
+        let mut a = acc.lock().unwrap();
+        let mut ev = ev_m.lock().unwrap();
+        ev.evaluations += 1;
+        ev.steps += r.steps;
+        ev.faults_fired.merge(&r.faults);
+        ev.probes.merge(&r.probes);
+        a.kinds.inc("l2_session");
+        if r.nontrivial {
+          for d in &r.distinct_digests {
+            ev.distinct.insert(*d);
+          }
+        }
+        if want_digests {
+          a.digests.push(((1u64 << 40) + i, r.digest));
+        }
+        if i == 0 {
+          ev.samples.push(json!({"run_index": (1u64 << 40), "kind": "l2_session", "knobs": sc.knobs.to_json(), "ops": sc.ops.iter().map(|o| o.summary()).collect::<Vec<_>>(), "held": r.violations.is_empty()}));
+        }
+        for v in r.violations {
+          if a.violations.len() < 64 && !a.violations.contains_key(&v.signature) {
+            a.violations.insert(v.signature.clone(), (i, v, sc.clone(), "l2"));
+          }
+        }
+      },
+      &stop,
+    );
+  }
   drop(ev_m);
   let acc = acc.into_inner().unwrap();
+  if l2_runs > 0 {
+    ev.extra.insert("l2_sessions".into(), json!(l2_executed));
+    ev.components["real"].as_array_mut().unwrap().push(json!("L2 sessions: cli/main.rs Backend (all handlers, URI<->module mapping, publish_diagnostics), tower-lsp 0.20 codec/router/serve, tokio::sync::RwLock"));
+    ev.components["simulated"].as_array_mut().unwrap().push(json!("L2 sessions: stdin/stdout -> in-memory pipes with seeded short reads/writes and stalls; tokio runtime -> two-task seeded executor; editor -> scripted JSON-RPC client; disk -> per-session scratch directory"));
+    ev.components["stubbed"] = json!(["tokio's own scheduler is not exercised (the serve future is polled by the harness executor)"]);
+  }
   ev.samples.sort_by_key(|s| s["run_index"].as_u64());
   ev.extra.insert("runs_by_workload".into(), acc.kinds.to_json());
   ev.extra.insert(
@@ -313,7 +383,7 @@ fn main() {
 
   let known = simcore::report::KnownFindings::load();
   let no_minimise = args.iter().any(|a| a == "--no-minimise");
-  let found: Vec<(String, (u64, exec::Found, Scenario))> = acc.violations.into_iter().collect();
+  let found: Vec<(String, (u64, exec::Found, Scenario, &'static str))> = acc.violations.into_iter().collect();
   eprintln!("{} distinct violation signatures; minimising", found.len());
   let results: Mutex<Vec<Violation>> = Mutex::new(Vec::new());
   let next = std::sync::atomic::AtomicUsize::new(0);
@@ -324,24 +394,24 @@ fn main() {
         if k >= found.len() {
           break;
         }
-        let (sig, (run_index, f, sc)) = &found[k];
+        let (sig, (run_index, f, sc, level)) = &found[k];
         let v = if no_minimise || known.lookup(&property, sig).is_some() {
           // no need to minimise what is already listed with its own replay
           Violation {
             property: property.clone(),
             signature: sig.clone(),
             description: f.detail.clone(),
-            replay: replay_json(&property, seed, Some(*run_index), sc, sig, &f.detail),
+            replay: replay_json(level, &property, seed, Some(*run_index), sc, sig, &f.detail),
           }
         } else {
-          let small = simcore::runner::run_one(RUN_STACK, || minimise(mode, sc.clone(), sig, 45));
-          let r = simcore::runner::run_one(RUN_STACK, || execute(&small, mode, None));
+          let small = simcore::runner::run_one(RUN_STACK, || minimise(level, mode, sc.clone(), sig, 45));
+          let r = simcore::runner::run_one(RUN_STACK, || run_level(level, &small, mode, None));
           let detail = r.violations.iter().find(|v| v.signature == *sig).map(|v| v.detail.clone()).unwrap_or(f.detail.clone());
           Violation {
             property: property.clone(),
             signature: sig.clone(),
             description: format!("run {run_index}: {detail}"),
-            replay: replay_json(&property, seed, Some(*run_index), &small, sig, &detail),
+            replay: replay_json(level, &property, seed, Some(*run_index), &small, sig, &detail),
           }
         };
         results.lock().unwrap().push(v);
@@ -357,7 +427,7 @@ fn main() {
   let wall = start.elapsed().as_secs_f64();
   ev.write(wall);
   println!(
-    "{property} {tier}: {executed} runs, {} steps, {} distinct non-trivial, {:.1}s, exit {}",
+    "{property} {tier}: {executed} L1 runs + {l2_executed} L2 sessions, {} steps, {} distinct non-trivial, {:.1}s, exit {}",
     ev.steps,
     ev.distinct.len(),
     wall,
